@@ -249,4 +249,121 @@ theorem tokLoop_hr_step (cfg : Cfg) (hty : cfg.types = markdownTypes) (g : Nat) 
   simp only [tokLoop, peek_at, hty, markdownTypes, tryTypes, readHeading, hl, f1, f2, f3, f4, f5, f6, f7, f8,
     Bool.false_eq_true, if_false, if_true, fw_next]
 
+/-! ### the loop over a document of blocks -/
+
+/-- the parse-buffer entry of a block whose first line is line `ln` (ghost origin `og`) -/
+def itemEntry (ln og : Nat) : Item → Entry
+  | .para ls => .paragraph ls ln og
+  | .heading lv t => .heading lv t [] ln og
+  | .hr c => .thematicBreak [c, c, c, '\n'] ln og
+
+/-- the entries of a document: one per block, one `BlankLine` per separator -/
+def itemEntries (ln og : Nat) : Item → List Item → List Entry
+  | it, [] => [itemEntry ln og it]
+  | it, it' :: rest =>
+    itemEntry ln og it :: .blankLine (ln + it.lines.length) (og + it.lines.length) ::
+      itemEntries (ln + it.lines.length + 1) (og + it.lines.length + 1) it' rest
+
+theorem mdTypes_par (cfg : Cfg) (hty : cfg.types = markdownTypes) : BTok.paragraph ∈ cfg.types := by rw [hty]; decide
+theorem mdTypes_len (cfg : Cfg) (hty : cfg.types = markdownTypes) : cfg.types.length = 11 := by rw [hty]; rfl
+theorem mdTypes_bl (cfg : Cfg) (hty : cfg.types = markdownTypes) : cfg.types.contains .blankLine = true := by rw [hty]; decide
+
+theorem item_lines_len_pos (it : Item) (hok : it.ok = true) : it.lines ≠ [] := by
+  cases it with
+  | para q => exact (paraFacts_of q hok).ne
+  | heading lv t => simp [Item.lines]
+  | hr c => simp [Item.lines]
+
+/-- one block: the loop consumes exactly its lines and appends exactly its entry -/
+theorem tokLoop_item_step (cfg : Cfg) (hty : cfg.types = markdownTypes) (it : Item) (hok : it.ok = true) (g : Nat)
+    (pre post : List Line) (hb : ∀ b, post.head? = some b → b.s = ['\n'])
+    (start : Nat) (st : St) (acc : List Entry) (loose : Bool) :
+    tokLoop cfg (g + 12) ⟨pre ++ (numbered pre.length it.lines ++ post), pre.length, start⟩ st acc loose =
+      tokLoop cfg (g + 11) ⟨(pre ++ numbered pre.length it.lines) ++ post, (pre ++ numbered pre.length it.lines).length, start⟩ st
+        (itemEntry (start + pre.length) (pre.length + 1) it :: acc) loose := by
+  cases it with
+  | para q =>
+    have f := paraFacts_of q hok
+    cases q with
+    | nil => exact absurd rfl f.ne
+    | cons s q' =>
+      simp only [Item.lines, numbered_cons]
+      have hq : ∀ x ∈ numbered (pre.length + 1) q', Quiet x.s :=
+        fun x hx => Mistletoe.Props.C14.inertLine_quiet _ (f.inert _ (List.mem_cons_of_mem _ (numbered_mem _ _ _ hx)))
+      have h1 := tokLoop_para_step cfg (mdTypes_par cfg hty) (g + 11) (by rw [mdTypes_len cfg hty]; omega)
+        { s := s, origin := pre.length + 1 } (numbered (pre.length + 1) q') pre post start st acc loose
+        (Mistletoe.Props.C14.inertLine_quiet _ (f.inert s (by simp))) hq
+        (by intro b hb'; rw [hb b hb']; decide)
+      simp only [List.cons_append] at h1 ⊢
+      rw [h1]
+      simp only [itemEntry, List.map_cons, numbered_s]
+  | heading lv t =>
+    have hk := headOk_of lv t hok
+    have h1 := tokLoop_heading_step cfg hty (g + 6) { s := hashes lv ++ ' ' :: t ++ ['\n'], origin := pre.length + 1 } lv t rfl hk
+      pre post start st acc loose
+    simp only [Item.lines, Mistletoe.Props.C14.numbered, itemEntry] at h1 ⊢
+    exact h1
+  | hr c =>
+    have hc := hrOk_of c hok
+    have h1 := tokLoop_hr_step cfg hty (g + 3) { s := [c, c, c, '\n'], origin := pre.length + 1 } c rfl hc
+      pre post start st acc loose
+    simp only [Item.lines, Mistletoe.Props.C14.numbered, itemEntry] at h1 ⊢
+    exact h1
+
+theorem tokLoop_items (cfg : Cfg) (hty : cfg.types = markdownTypes) (start : Nat) (st : St) :
+    ∀ (rest : List Item) (it : Item) (pre : List Line) (acc : List Entry) (loose : Bool) (gas : Nat),
+      it.ok = true → (∀ x ∈ rest, x.ok = true) → 2 * rest.length + 13 ≤ gas →
+      tokLoop cfg gas ⟨pre ++ numbered pre.length (itemsLines it rest), pre.length, start⟩ st acc loose =
+        .ok ({ entries := acc.reverse ++ itemEntries (start + pre.length) (pre.length + 1) it rest, loose := loose }, st)
+  | [], it, pre, acc, loose, gas, hok, _, hg => by
+    obtain ⟨g, rfl⟩ : ∃ g, gas = g + 12 := ⟨gas - 12, by simp only [List.length_nil] at hg; omega⟩
+    have h1 := tokLoop_item_step cfg hty it hok g pre [] (by simp) start st acc loose
+    simp only [List.append_nil] at h1
+    simp only [itemsLines, itemEntries]
+    rw [h1, tokLoop_end]
+    simp
+  | it' :: rest, it, pre, acc, loose, gas, hok, hr, hg => by
+    simp only [List.length_cons] at hg
+    obtain ⟨g, rfl⟩ : ∃ g, gas = g + 12 := ⟨gas - 12, by omega⟩
+    let n := it.lines.length
+    let b : Line := { s := ['\n'], origin := pre.length + n + 1 }
+    have hlines : numbered pre.length (itemsLines it (it' :: rest)) =
+        numbered pre.length it.lines ++ b :: numbered (pre.length + n + 1) (itemsLines it' rest) := by
+      simp only [itemsLines, numbered_append, numbered_cons]
+      rfl
+    have h1 := tokLoop_item_step cfg hty it hok g pre (b :: numbered (pre.length + n + 1) (itemsLines it' rest))
+      (by intro b' hb'; simp only [List.head?_cons, Option.some.injEq] at hb'; subst hb'; rfl) start st acc loose
+    obtain ⟨g', rfl⟩ : ∃ g', g = g' + 2 := ⟨g - 2, by omega⟩
+    have h2 := tokLoop_nl_step cfg (g' + 12) (by rw [mdTypes_len cfg hty]; omega) b (pre ++ numbered pre.length it.lines)
+      (numbered (pre.length + n + 1) (itemsLines it' rest)) start st
+      (itemEntry (start + pre.length) (pre.length + 1) it :: acc) loose rfl
+    rw [mdTypes_bl cfg hty] at h2
+    simp only [if_true] at h2
+    have hlen : (pre ++ numbered pre.length it.lines ++ [b]).length = pre.length + n + 1 := by
+      simp only [List.length_append, numbered_length, List.length_cons, List.length_nil]; rfl
+    have ih := tokLoop_items cfg hty start st rest it' (pre ++ numbered pre.length it.lines ++ [b])
+      (.blankLine (start + (pre ++ numbered pre.length it.lines).length) b.origin ::
+        itemEntry (start + pre.length) (pre.length + 1) it :: acc) loose (g' + 12)
+      (hr it' (by simp)) (fun x hx => hr x (List.mem_cons_of_mem _ hx)) (by omega)
+    rw [hlines, h1]
+    have e : g' + 2 + 11 = g' + 12 + 1 := by omega
+    rw [e, h2, ← hlen, ih, hlen]
+    simp only [itemEntries, List.reverse_cons, List.append_assoc, List.singleton_append, List.length_append, numbered_length]
+    have e1 : start + (pre.length + it.lines.length) = start + pre.length + it.lines.length := by omega
+    have e2 : start + (pre.length + n + 1) = start + pre.length + it.lines.length + 1 := by omega
+    have e3 : pre.length + n + 1 + 1 = pre.length + 1 + it.lines.length + 1 := by omega
+    have e4 : b.origin = pre.length + 1 + it.lines.length := by show pre.length + n + 1 = _; omega
+    rw [e1, e2, e3, e4]
+    simp
+
+/-- **the block parse of a document of blocks, in every parser state** -/
+theorem tokenize_items (cfg : Cfg) (hty : cfg.types = markdownTypes) (it : Item) (rest : List Item)
+    (hok : it.ok = true) (hr : ∀ x ∈ rest, x.ok = true) (gas : Nat) (st : St) :
+    tokenizeBlock cfg (gas + (2 * rest.length + 14)) (numbered 0 (itemsLines it rest)) 1 st =
+      .ok ({ entries := itemEntries 1 1 it rest, loose := false }, st) := by
+  have e : gas + (2 * rest.length + 14) = (gas + (2 * rest.length + 13)) + 1 := by omega
+  rw [e]
+  have := tokLoop_items cfg hty 1 st rest it [] [] false (gas + (2 * rest.length + 13)) hok hr (by omega)
+  simpa [tokenizeBlock] using this
+
 end Mistletoe.MdRound
